@@ -1,9 +1,10 @@
 (* props/C11.v -- a canonicalized stream is fixed once and identical everywhere.
    Only pinned statements (model/CanonSpec.v), [exact], non-vacuity examples and Print Assumptions.
 
-   The theorems are about the canon instruction of the executor model (model/ExecStreams.v:
-   exec_canon, in per-run lock-step with the real air::execute_air) and the canon merger of the
-   trace handler model (model/Handler.v), for every context, every data, every stream content.
+   The theorems are about the three canon instructions of the executor model (model/ExecStreams.v:
+   exec_canon_generic k tb = canon / canon_map / canon_stream_map_scalar, in per-run lock-step with
+   the real air::execute_air) and the canon merger of the trace handler model (model/Handler.v), for
+   every context, every data, every stream and stream-map content.
    The history-level statement C11_full stays a Definition: see checks/C11.py PARTIAL. *)
 From Aqua Require Import Base Json Air Trace Handler Values Scalars Lens Exec RunExec ExecStreams CallSpec CanonSpec.
 From Aqua Require Import CanonProofs.
@@ -70,7 +71,7 @@ Example C11_first_nonvacuous :
   canon_met x1 (CanonEmpty cid) /\ no_executed (CanonEmpty cid) /\
   resolve_peer_id_to_string x1 (PLiteral "P") = POk (current_peer x1) /\
   exec_canon x1 (PLiteral "P") sv cv = XOk (after_canon x1) /\
-  map va_result (known_values x1 sv) = [JStr "a"; JStr "b"] /\
+  map va_result (known_values TStreams x1 sv) = [JStr "a"; JStr "b"] /\
   tr (after_canon x1) = [SAp [generation_stub]; SAp [generation_stub]; SCanon (CanonExecuted c_ab)].
 Proof.
   split; [exists (handed x1); vm_compute; reflexivity |].
@@ -85,23 +86,23 @@ Definition d1 : idata :=
 Definition x2 : ctx := before_canon (at_peer "Q" empty_data d1).
 Example C11_reuse_nonvacuous :
   canon_met x2 (CanonMet cid (CanonExecuted c_ab)) /\
-  map va_result (known_values x2 sv) = [JStr "a"; JStr "b"] /\
-  known_values (with_streams x2 []) sv = [] /\
-  exists y, exec_canon (with_streams x2 []) (PLiteral "P") sv cv = XOk y /\
+  map va_result (known_values TStreams x2 sv) = [JStr "a"; JStr "b"] /\
+  known_values TStreams (with_tables x2 [] []) sv = [] /\
+  exists y, exec_canon (with_tables x2 [] []) (PLiteral "P") sv cv = XOk y /\
             get_canon_stream y "#canon" =
               POk {| cw_values := [VALiteral (JStr "a") "P" 0; VALiteral (JStr "b") "P" 0];
                      cw_tetraplet := canon_tetraplet "P"; cw_cid := c_ab |}.
 Proof.
   split; [exists (handed x2); vm_compute; reflexivity |].
   split; [vm_compute; reflexivity |]. split; [vm_compute; reflexivity |].
-  exists (match exec_canon (with_streams x2 []) (PLiteral "P") sv cv with XOk y => y | _ => x2 end).
+  exists (match exec_canon (with_tables x2 [] []) (PLiteral "P") sv cv with XOk y => y | _ => x2 end).
   split; vm_compute; reflexivity.
 Qed.
 
 Example C11_two_runs_nonvacuous :
   stores_include (x_cids x2) (x_cids (after_canon x1)) /\
   meet_canon_start cid cid_eqb (x_handler x2) = Ok (CanonMet cid (CanonExecuted c_ab), handed x2) /\
-  c_ab = first_cid (current_peer x1) (known_values x1 sv).
+  c_ab = first_cid (current_peer x1) (canon_producer (CKStream "#canon") TStreams x1 sv (current_peer x1)).
 Proof.
   split; [| split; vm_compute; reflexivity].
   assert (H : forall small big, forallb (fun c => cid_mem c big) small = true ->
@@ -130,14 +131,35 @@ Example C11_unique_nonvacuous :
   merge_seq (CanonExecuted c_ab) [(AsPrevious, CanonRequestSentBy "Q"); (AsCurrent, CanonExecuted c_ab); (AsCurrent, CanonRequestSentBy "R")]
     = Ok (CanonExecuted c_ab) /\
   (* the state forged by Q ("I, Q, executed the canon designated to P") is refused by verify_canon *)
-  handle_canon_executed (set_cids x3 {| cs_values := []; cs_tetraplets := [CTetraplet (canon_tetraplet "Q")]; cs_canon_elems := [];
+  handle_canon_executed (CKStream "#canon") (set_cids x3 {| cs_values := []; cs_tetraplets := [CTetraplet (canon_tetraplet "Q")]; cs_canon_elems := [];
                                          cs_canon_results := [first_cid "Q" []]; cs_services := [] |} [])
-                        (PLiteral "P") "#canon" (first_cid "Q" []) =
+                        (PLiteral "P") (first_cid "Q" []) =
     XErr (EUncatch (UInstructionParametersMismatch "canon tetraplet"))
          (set_cids x3 {| cs_values := []; cs_tetraplets := [CTetraplet (canon_tetraplet "Q")]; cs_canon_elems := [];
                          cs_canon_results := [first_cid "Q" []]; cs_services := [] |} []).
 Proof.
   split; [discriminate |]. conjs; vm_compute; reflexivity.
+Qed.
+
+(* the stream-map forms: `(seq (ap ("k" "v") %m) (canon "P" %m sc))` at P binds the scalar to the object
+   {"k": "v"}; `(canon "P" %m #%cm)` canonicalizes the {key, value} pairs themselves *)
+Definition mv : var := {| v_name := "%m"; v_pos := 9 |}.
+Definition xm : ctx :=
+  match exec stream_instr 20 (IApMap "ap" (KLiteral "k") (ALiteral "v") mv) (initial_ctx (at_peer "P" empty_data empty_data)) with
+  | XOk x => x | _ => initial_ctx (at_peer "P" empty_data empty_data) end.
+Example C11_maps_nonvacuous :
+  map va_result (canon_producer (CKMapScalar "sc") TMaps xm mv "P") = [JObj [("k"%string, JStr "v")]] /\
+  map va_result (canon_producer (CKMap "#%cm") TMaps xm mv "P") = [JObj [("key"%string, JStr "k"); ("value"%string, JStr "v")]] /\
+  (exists y, exec_canon_generic (CKMapScalar "sc") TMaps xm (PLiteral "P") mv = XOk y /\
+             option_map va_result (match Scalars.get_value vagg (x_scalars y) "sc" with inl o => o | _ => None end)
+             = Some (JObj [("k"%string, JStr "v")])) /\
+  (exists y, exec_canon_generic (CKMap "#%cm") TMaps xm (PLiteral "P") mv = XOk y).
+Proof.
+  conjs; try (vm_compute; reflexivity).
+  - exists (match exec_canon_generic (CKMapScalar "sc") TMaps xm (PLiteral "P") mv with XOk y => y | _ => xm end).
+    split; vm_compute; reflexivity.
+  - exists (match exec_canon_generic (CKMap "#%cm") TMaps xm (PLiteral "P") mv with XOk y => y | _ => xm end).
+    vm_compute; reflexivity.
 Qed.
 
 Print Assumptions C11_reuse.
